@@ -23,10 +23,7 @@ CORR_MODULES = ["Wire.RecvCorr"]
 PREFIX = "C06"
 CASE_TYPE = "C06_case"
 HARNESS = "c06"
-KNOWN = {1: "C06-inforeply-todo", 2: "C06-gap-range-loop", 3: "C06-snset-member-overflow",
-         4: "C06-acknack-base-underflow", 5: "C06-heartbeat-first-underflow", 6: "C06-seqnum-max-overflow",
-         7: "C06-frag-reassembly-cost", 8: "C06-decoder-fragset", 9: "C06-xtypes-sequence-length",
-         10: "C06-xtypes-emheader-overflow"}
+KNOWN = {}   # the ten findings of this check are repaired (known_findings.json, status fixed)
 RULE = ("a case is a scenario (3 simulated participants, knobs: fragment size, samples written before the injection, "
         "reliable / best-effort victim reader) plus 1..60 datagrams injected into the victim, each observed separately "
         "(PANIC file:line through a panic hook, HANG through a per-datagram watchdog, bytes requested from a counting "
@@ -34,8 +31,10 @@ RULE = ("a case is a scenario (3 simulated participants, knobs: fragment size, s
         "between the healthy peer and the victim, two API calls on the victim, the worker still requests timer "
         "wake-ups); streams: uniformly random bytes, random bodies behind valid headers, structure-aware mutation of "
         "datagrams captured from the simulation (bit flips, length edits, boundary values in every numeric field, "
-        "prefix and entity-id substitution) and model-guided datagrams (one per Panic / cost branch of the Coq "
-        "model and their neighbours); distinct = distinct injected datagram; non-trivial = the datagram decodes to at "
+        "prefix and entity-id substitution), real discovery / user DATA of a discovered participant re-sent with the "
+        "next sequence number and a mutated payload (reaches deserialization and matching), boundary-value datagrams "
+        "of every repaired defect, and the regression corpus (every former witness + values just inside the valid "
+        "range); distinct = distinct injected datagram; non-trivial = the datagram decodes to at "
         "least one submessage that addresses an existing endpoint or proxy of the victim")
 TRUSTED = ["theories/Wire/RecvModel.v is a hand transcription of message_receiver.rs, the handle_data dispatch of "
            "communication_methods.rs, stateful_reader.rs, writer_proxy.rs, stateful_writer.rs, reader_proxy.rs "
@@ -44,7 +43,7 @@ TRUSTED = ["theories/Wire/RecvModel.v is a hand transcription of message_receive
            "ACKNACK per endpoint pair, samples delivered) by props/C06.py",
            "memory of the real code is what its global allocator is asked for (counting allocator in the harness); "
            "HANG is a 5 s (quick) / 20 s (thorough) wall-clock watchdog per datagram"]
-ASSUMPTIONS = ["debug profile (overflow checks on): the arithmetic panics recorded as known findings wrap silently in a release build",
+ASSUMPTIONS = ["debug profile (overflow checks on)",
                "the theorems cover the RTPS message receiver and the stateful reader / writer handlers; DCPS processing of accepted "
                "samples (deserialization of user and discovery data, type lookup, QoS matching, listeners) is covered by the "
                "differential run only",
@@ -479,10 +478,43 @@ def clean_dgram(r):
     return W.msg(rprefix(r), *subs)
 
 
+def hostile_dgram(r):
+    """boundary values of the repaired defects in one datagram (claiming S, V or nobody)"""
+    pfx = rprefix(r)
+    k = r.randrange(10)
+    c = rcount(r)
+    if k == 0:
+        sub = W.info_reply([W.locator()] * r.choice([0, 1, 3]), multicast=[W.locator()] if r.random() < 0.5 else None)
+    elif k == 1:
+        base = r.choice([2**62, I64MAX, 1 << 40, I64MAX - 1])
+        sub = W.gap(EID_R, EID_W, r.choice([I64MIN, 0, 1, -5]), base, [b for b in rbits(r)])
+    elif k == 2:
+        sub = W.gap(EID_R, EID_W, I64MAX - 300, I64MAX - r.choice([0, 1, 3, 255, 256]), rbits(r) or [0])
+    elif k == 3:
+        sub = W.acknack(EID_R, EID_W, I64MAX - r.choice([0, 1, 10, 255]), rbits(r) or [0, 255], c)
+    elif k == 4:
+        sub = W.acknack(EID_R, EID_W, r.choice([I64MIN, I64MIN + 1, 0, -1]), rbits(r), c)
+    elif k == 5:
+        sub = W.heartbeat(EID_R, EID_W, r.choice([I64MIN, 0, -1, I64MAX, 1]), r.choice([I64MAX, I64MIN, 0, 5]), c,
+                          final=r.random() < 0.5, live=r.random() < 0.3)
+    elif k == 6:
+        sub = W.data(EID_R, EID_W, r.choice([I64MAX, I64MAX - 1]), W.keyed_payload(1, b"abc"))
+    elif k == 7:
+        sub = W.nack_frag(EID_R, EID_W, r.choice([I64MAX, I64MAX - 1, 1]), r.choice([1, U32MAX - 255, 0]), rbits(r) or [0], c)
+    elif k == 8:
+        n = r.choice([1, 5, 30])
+        return W.msg(pfx, *[W.data_frag(EID_R, EID_W, 1, i + 1, r.choice([65535, 2, 3]), 1, 65535 * n, b"x") for i in range(n)])
+    else:
+        sub = W.data_frag(EID_R, EID_W, r.choice([I64MAX, 1, 2]), 1, r.choice([0, 1, 2, 65535]), r.choice([0, 1, 8]), r.choice([0, 8, U32MAX]), bytes(8))
+    return W.msg(pfx, sub)
+
+
 def guided(lim=6000):
-    """model-guided datagrams: one per Panic / cost branch of RecvModel.v (class, datagram list).
-    The last datagram of each list is the one expected to fail; the ones before set the stage."""
-    S, V, H = PFX_S, PFX_V, PFX_H
+    """model-guided datagrams: one list per Panic / cost branch the handler model had BEFORE the
+    repairs (former class, datagram list): regression cases, every one must now be harmless.
+    (They claim S or V, never the healthy peer: a GAP or DATA in the peer's name legitimately
+    changes what the victim expects from it.)"""
+    S, V, H = PFX_S, PFX_V, PFX_S
     g = []
     kp = W.keyed_payload(1, b"abc")
     for pfx in (PFX_U, S, V):
@@ -688,7 +720,7 @@ def rknobs(r):
 
 
 def gen(r, tier):
-    ncases, per = {"quick": (100, 40), "search": (160, 40), "thorough": (1100, 60)}[tier]
+    ncases, per = {"quick": (78, 40), "search": (160, 40), "thorough": (1100, 60)}[tier]
     lim = LIM_MS[tier]
     cases = []
     cap = captured(dict(frag=64, a=2, m=2, j=1, rel=1))
@@ -696,14 +728,12 @@ def gen(r, tier):
     real_user = [b for (h, b) in cap if not h.endswith("m")]
     real_meta_s = [b for (h, b) in cap if h == "2>1m" and any(x[1] == 0x15 for x in W.split(b))]
     real_user_s = [b for (h, b) in cap if h == "2>1" and any(x[1] == 0x15 for x in W.split(b))]
-    g = guided(lim)
-    pool_classy = []
-    # every guided class witness ends one case; its stage-setting datagrams stay directly before it
     for i in range(ncases):
         knobs = rknobs(r)
         knobs["lim"] = lim
+        knobs["probe"] = 1
         ds = []
-        deep = (i % 5 == 4)           # every fifth case: mostly datagrams that reach the DCPS code
+        deep = (i % 4 == 3)           # every fourth case: mostly datagrams that reach the DCPS code
         seq = {EID_W: knobs["j"]}
         while len(ds) < per:
             k = r.random()
@@ -711,44 +741,25 @@ def gen(r, tier):
                 d = deep_dgram(r, real_meta_s, real_user_s, seq)
                 if d is None:
                     continue
-            elif k < 0.40:
+            elif k < 0.36:
                 d = clean_dgram(r)
-            elif k < 0.75 and real:
+            elif k < 0.44:
+                d = hostile_dgram(r)
+            elif k < 0.78 and real:
                 d = mutate(r, r.choice(real_user if (real_user and r.random() < 0.6) else real))
                 if r.random() < 0.3:
                     d = mutate(r, d)
             else:
                 d = random_dgram(r)
-            if len(d) == 0 or c07_cost_class(d):
-                continue
-            c = py_class(d)
-            if c != 0:
-                pool_classy.append((c, [d]))
+            if len(d) == 0:
                 continue
             ds.append(d)
-        tail = None
-        if i < len(g):
-            # a model-guided witness runs alone: earlier datagrams could raise the counts it must exceed
-            cases.append((dict(knobs, probe=0, rel=1, m=max(1, knobs["m"]), j=0), list(g[i][1]), "guided"))
-            continue
-        elif i % 3 == 0 and pool_classy:
-            tail = pool_classy.pop(r.randrange(len(pool_classy)))
-        if tail is not None:
-            knobs["probe"] = 0
-            if tail[0] == 7:
-                knobs["rel"] = 1
-            ds = ds[:per - len(tail[1])] + list(tail[1])
-            if tail[0] in (2, 7):
-                # the expected HANG costs `lim` ms: keep these cases short
-                ds = ds[-(len(tail[1]) + 4):]
-        else:
-            knobs["probe"] = 1
         cases.append((knobs, ds, "gen"))
     return cases
 
 
 def corpus():
-    base = dict(frag=1344, a=1, m=1, j=0, rel=1, lim=6000)
+    base = dict(frag=1344, a=1, m=1, j=0, rel=1, lim=5000)
     S = PFX_S
     nack1 = [W.msg(S, W.data_frag(EID_R, EID_W, 1, 1, 1, 0, 8, bytes(8))),        # fragment size 0: ignored
              W.msg(S, W.data_frag(EID_R, EID_W, 1, 1, 2, 8, 8, bytes(8))),        # every fragment number buffered, count sum 2 <> 1
@@ -770,8 +781,9 @@ def corpus():
           (dict(base, probe=1, rel=0, j=1), neighbours(), "neighbours-be"),
           (dict(base, probe=1), nack1, "nack-frag-1"),
           (dict(base, probe=1, frag=16), nack2, "nack-frag-2")]
-    for c, ds in guided()[:0]:
-        cs.append((dict(base, probe=0), ds, "guided"))
+    # the datagrams that panicked / hung / exhausted the participant before the repairs
+    for c, ds in guided(base["lim"]):
+        cs.append((dict(base, probe=1), ds, "former-class-%d" % c))
     return cs
 
 
@@ -813,18 +825,23 @@ def distribution(cases, outs):
 
 MANIFEST = {
     "text": ("Machine-checked proof (Coq) over a model of the receive path after decoding — MessageReceiver, the handle_data "
-             "dispatch, the stateful reader / writer-proxy and stateful writer / reader-proxy handlers with arbitrary 64-bit "
-             "field values — composed with the RTPS decoder model of C07/C08: for every participant state satisfying the "
-             "invariant and EVERY byte string outside the recorded classes the handlers return (no panic), keep the invariant, "
-             "touch only the proxies of the participants the datagram speaks for, and the sender-chosen loop counts are bounded; "
-             "inside each class a witness shows the panic / unbounded work. The model is tied to the code by injecting "
-             "thousands of random, mutated and model-guided datagrams into a simulated running participant and comparing panic "
-             "sites, hangs and every reply datagram with the model inside Coq; the oracle (no panic, no hang, bounded "
-             "allocation, liveness probe) is applied to the real observations."),
+             "dispatch, the stateful reader / writer-proxy and stateful writer / reader-proxy handlers — composed with the "
+             "RTPS decoder model of C07/C08 (code after the repairs): for EVERY participant state satisfying the invariant and "
+             "EVERY byte string the handlers return (no panic), keep the invariant (all histories of datagrams by induction), "
+             "add at most 26 bytes per datagram byte to any fragment buffer, touch only the proxies of the participants the "
+             "datagram speaks for, and the sender-chosen loop count is bounded (quadratically in the buffered fragments: "
+             "partial w.r.t. 'linear'). The model is tied to the code by injecting thousands of random, mutated, "
+             "discovery-payload and boundary-value datagrams into a simulated running participant and comparing panic sites, "
+             "hangs and every reply datagram with the model inside Coq; the oracle (no panic, no hang, allocation <= 64 x "
+             "length + 256 KiB, liveness probe between healthy peer and victim) is applied to the real observations. Ten "
+             "defects found by this check (INFO_REPLY todo!(), GAP range loop, five sequence-number overflow families, "
+             "fragment reassembly cost, with_capacity(wire length) and EMHEADER overflow in the XTypes deserializer reached "
+             "through discovery data) are repaired; their witnesses are regression cases."),
     "note": ("PARTIAL: the theorems cover the RTPS receiver and reader/writer handlers (plus the decoder through C07); DCPS "
              "processing of accepted samples (XCDR / discovery-data deserialization, type lookup, QoS matching, regex of "
-             "partitions), the OS/socket layer and the allocator are covered by the differential run only. Debug profile. "
-             "Known findings: INFO_REPLY todo!(), GAP range loop, sequence-number overflows at the i64 boundary (5 sites "
-             "families), fragment reassembly cost. Axioms: none."),
+             "partitions), the OS/socket layer and the allocator are covered by the differential run only. Debug profile "
+             "(release builds wrap instead of panicking). Out of scope: identity spoofing through discovery data (a DATA "
+             "announcing another participant's GUID with other locators redirects that participant's traffic) is a matter "
+             "of DDS-Security, the generator avoids it. Axioms: none."),
     "technique": "Coq proof (invariant + induction over submessages and datagrams) + whole-stack simulation differential run with oracle evaluated in Coq",
 }
